@@ -606,6 +606,22 @@ func (e *Engine) evalCall(x *Expr, se *SpecEnv) Val {
 		}
 		mag := T(ws, "(ite (bvslt %s (_ bv0 65)) (bvneg %s) %s)", wide.S, wide.S, wide.S)
 		return Val{T: types.Typ[types.Uint64], L: []Term{mag}}
+	case "at":
+		// at(s, p): the element of s's backing array at absolute position p (no offset arithmetic);
+		// used with inrange(s, p) for position-based quantifiers whose trigger matches any read of the row
+		sv := arg(0)
+		pos := arg(1).L[0]
+		et := resolve(elemOfSlice(sv.T), nil)
+		ls := e.lay.Leaves(et)
+		out := Val{T: et, L: make([]Term, len(ls))}
+		for i := range ls {
+			out.L[i] = Select(Select(e.getSliceHeap(se.st, et, i), sv.L[0]), pos)
+		}
+		return out
+	case "inrange":
+		sv := arg(0)
+		pos := arg(1).L[0]
+		return mkBool(And(Le(sv.L[1], pos), Lt(pos, Add(sv.L[1], sv.L[2]))))
 	case "mark":
 		// mark(x): an always-true marker used purely as an instantiation trigger
 		a := arg(0)
